@@ -100,7 +100,14 @@ func newC19World(dir string) *c19World {
 	return &c19World{dir: dir, l: l, w: dw}
 }
 
-func (w *c19World) write(name string) {
+func (w *c19World) write(name string) { w.writeAt(name, w.clock) }
+
+// writeAt replaces a file by rename with the modification time of the given clock value (an
+// earlier value than the current one: a roll-back that preserves timestamps, rsync -t, a restore).
+func (w *c19World) writeAt(name string, clock int) {
+	saved := w.clock
+	w.clock = clock
+	defer func() { w.clock = saved }()
 	p := filepath.Join(w.dir, name)
 	if st, err := os.Lstat(p); err == nil && st.ModTime().Equal(c19Base.Add(time.Duration(w.clock)*time.Second)) {
 		w.equalMtimeReplacements++
@@ -126,6 +133,10 @@ func (w *c19World) apply(e c19Event) {
 		w.clock++
 	case "shard":
 		w.write(e.file)
+	case "oldshard":
+		w.writeAt(e.file, w.clock-1)
+	case "oldmeta":
+		w.writeAt(e.file+".meta", w.clock-1)
 	case "rmshard":
 		os.Remove(filepath.Join(w.dir, e.file))
 	case "meta":
@@ -214,6 +225,8 @@ func c19Convergence(r *mc.Report, depth int) (states, transitions int) {
 		events = append(events, c19Event{"meta", f}, c19Event{"rmmeta", f})
 	}
 	events = append(events, c19Event{"tmp", "a_v16.00000.zoekt"})
+	// replacements whose modification time lies BEFORE the current clock (enabled after the first tick)
+	events = append(events, c19Event{"oldshard", files[0]}, c19Event{"oldmeta", files[0]})
 	n := 0
 	build := func(path []c19Event) *c19World {
 		n++
@@ -241,7 +254,7 @@ func c19Convergence(r *mc.Report, depth int) (states, transitions int) {
 			}
 			for _, e := range events {
 				w := build(nd.path)
-				if e.kind == "tick" && w.clock >= 2 {
+				if (e.kind == "tick" && w.clock >= 2) || (strings.HasPrefix(e.kind, "old") && w.clock < 1) {
 					os.RemoveAll(w.dir)
 					continue
 				}
